@@ -48,6 +48,8 @@ def pr_cond(c):
         return f"(CIn {pr_expr(c[1])} {coq_list(S(x) for x in c[2])})"
     if k in ("CEq", "CStateIs"):
         return f"({k} {pr_expr(c[1])} {S(c[2])})"
+    if k == "CLenLe":
+        return f"(CLenLe {pr_expr(c[1])} {emit.z(c[2])})"
     if k in ("CTruthy", "CIsAscii", "CIsDigit"):
         return f"({k} {pr_expr(c[1])})"
     if k in ("CDone", "COther"):
@@ -495,14 +497,30 @@ class Handler:
     def _cond(self, t):
         if isinstance(t, ast.UnaryOp) and isinstance(t.op, ast.Not):
             return ("CNot", self._cond(t.operand))
-        if isinstance(t, ast.BoolOp) and isinstance(t.op, ast.And) and len(t.values) == 2:
-            return ("CAnd", self._cond(t.values[0]), self._cond(t.values[1]))
+        if isinstance(t, ast.BoolOp) and isinstance(t.op, ast.And) and len(t.values) >= 2:
+            # a and b and c  =  (a and b) and c
+            c = self._cond(t.values[0])
+            for v in t.values[1:]:
+                c = ("CAnd", c, self._cond(v))
+            return c
         if isinstance(t, ast.Compare) and len(t.ops) == 1:
             op, left, right = t.ops[0], t.left, t.comparators[0]
             if isinstance(op, ast.In) and isinstance(right, (ast.Tuple, ast.List)) and all(
                 isinstance(e, ast.Constant) and isinstance(e.value, str) for e in right.elts
             ):
                 return ("CIn", self.expr(left), [e.value for e in right.elts])
+            if (
+                isinstance(op, ast.LtE)
+                and isinstance(right, ast.Constant)
+                and isinstance(right.value, int)
+                and not isinstance(right.value, bool)
+                and isinstance(left, ast.Call)
+                and isinstance(left.func, ast.Name)
+                and left.func.id == "len"
+                and len(left.args) == 1
+                and not left.keywords
+            ):
+                return ("CLenLe", self.expr(left.args[0]), right.value)
             if isinstance(op, ast.Eq) and isinstance(right, ast.Constant) and isinstance(right.value, str):
                 return ("CEq", self.expr(left), right.value)
             if isinstance(op, ast.Eq):
